@@ -302,6 +302,95 @@ func TestVerif_C17_LongRejections(t *testing.T) {
 	})
 }
 
+// ONE shared AEAD (and its Block) hammered by goroutines that leave the barrier together and each run a series of Seal / Open /
+// Encrypt calls on it with their OWN messages (lengths with partial blocks, so every staging buffer is in use); expected values are
+// computed with the reference BEFORE the barrier. Per-call state that lives in the shared object instead of in the call shows as a
+// wrong tag or tail within a few rounds, far more reliably than in a mixed workload.
+func TestVerif_C17_SharedAEADHammer(t *testing.T) {
+	rec := stats.Get("C17", "shared-aead-hammer")
+	rec.Rule("rapid draws key, (nonce size, tag size) from {12/16, 12/13, 13/16, 16/16, 130/16}, 2..12 goroutines and 48 repetitions; every goroutine precomputes its own (nonce, aad, plaintext of 1..300 bytes, mostly with a partial last block) and the reference ciphertexts, then all leave a spin barrier together and alternate Seal, Open and Block.Encrypt on the ONE shared AEAD / Block. Oracle: every result equals the reference's; race detector. Non-trivial: every plan; distinct by plan.")
+	t.Cleanup(stats.FlushAll)
+	rapid.Check(t, func(t *rapid.T) {
+		r := gen.Rand(t, "content")
+		key := gen.RandBytes(r, 16)
+		cfg := [][2]int{{12, 16}, {12, 13}, {13, 16}, {16, 16}, {130, 16}}[gen.Uniform(t, "cfg", 0, 4)]
+		g := gen.Int(t, "goroutines", 2, 12)
+		const reps = 48
+		blk, err := sm4.NewCipher(key)
+		if err != nil {
+			t.Fatalf("NewCipher: %v", err)
+		}
+		var a cipher.AEAD
+		if cfg[1] != 16 {
+			a, err = cipher.NewGCMWithTagSize(blk, cfg[1])
+		} else {
+			a, err = cipher.NewGCMWithNonceSize(blk, cfg[0])
+		}
+		if err != nil {
+			t.Fatalf("NewGCM: %v", err)
+		}
+		ref := sm4ref.New(key)
+		seeds := make([]int64, g)
+		for i := range seeds {
+			seeds[i] = int64(gen.Uniform(t, "gseed", 0, 1<<30))
+		}
+		rec.Case(stats.Hash(key, []byte(fmt.Sprint(cfg, g, seeds))), true, fmt.Sprintf("goroutines:%d", (g+3)/4*4), fmt.Sprintf("nonce:%d,tag:%d", cfg[0], cfg[1]))
+		bar := &c17Barrier{n: int32(g)}
+		var mu sync.Mutex
+		first := ""
+		var wg sync.WaitGroup
+		for i := 0; i < g; i++ {
+			wg.Add(1)
+			go func(i int) {
+				defer wg.Done()
+				rr := randFrom(seeds[i])
+				type msg struct{ nonce, aad, pt, want, blockIn, blockWant []byte }
+				ms := make([]msg, reps)
+				for k := range ms {
+					n := 1 + rr.Intn(300)
+					m := msg{nonce: gen.RandBytes(rr, cfg[0]), aad: gen.RandBytes(rr, rr.Intn(40)), pt: gen.RandBytes(rr, n), blockIn: gen.RandBytes(rr, 16), blockWant: make([]byte, 16)}
+					m.want = gcmref.Seal(ref, m.nonce, m.pt, m.aad, cfg[1])
+					ref.Encrypt(m.blockWant, m.blockIn)
+					ms[k] = m
+				}
+				fail := ""
+				bar.wait()
+				for k, m := range ms {
+					func() {
+						defer func() {
+							if p := recover(); p != nil && fail == "" {
+								fail = fmt.Sprintf("repetition %d panicked: %v", k, p)
+							}
+						}()
+						if got := a.Seal(nil, m.nonce, m.pt, m.aad); !bytes.Equal(got, m.want) && fail == "" {
+							fail = fmt.Sprintf("repetition %d: Seal of a %d-byte message on the shared AEAD differs from the reference\n got %x\nwant %x", k, len(m.pt), got, m.want)
+						}
+						if pt, err := a.Open(nil, m.nonce, m.want, m.aad); (err != nil || !bytes.Equal(pt, m.pt)) && fail == "" {
+							fail = fmt.Sprintf("repetition %d: Open of an authentic %d-byte message on the shared AEAD: err=%v", k, len(m.pt), err)
+						}
+						out := make([]byte, 16)
+						blk.Encrypt(out, m.blockIn)
+						if !bytes.Equal(out, m.blockWant) && fail == "" {
+							fail = fmt.Sprintf("repetition %d: Encrypt on the shared Block differs from the reference", k)
+						}
+					}()
+				}
+				if fail != "" {
+					mu.Lock()
+					if first == "" {
+						first = fmt.Sprintf("goroutine %d of %d on ONE shared AEAD (nonce %d, tag %d): %s", i, g, cfg[0], cfg[1], fail)
+					}
+					mu.Unlock()
+				}
+			}(i)
+		}
+		wg.Wait()
+		if first != "" {
+			vt.Fail(t, rec, "C17:shared-aead:result-differs", "%s", first)
+		}
+	})
+}
+
 // The child of TestVerif_C17_ColdStart: its first library calls are the burst itself.
 func TestVerif_C17_ColdChild(t *testing.T) {
 	planPath := os.Getenv("VERIF_C17_COLD_PLAN")
